@@ -104,7 +104,7 @@ class Scenario:
         store_init='free', max_parts=1, pay_outcomes=('complete', 'failed'), faults=0, fault_methods=(),
         fault_codes=((-1, 'Rpc'),), write_faults=0, crash=0, timers=True, spurious=False, xpay=False,
         height=None, blocks=0, wait_fail_codes=(204,), deliver_in_order=True, payee_releases=True,
-        rng_free=True, max_total_parts=3,
+        rng_free=True, max_total_parts=3, parts_can_fail=True,
     )
     def __init__(self, c, cfg, monitors=()):
         self.c = c
@@ -129,6 +129,7 @@ class Scenario:
         env.fault_codes = cfg['fault_codes']
         env.wait_fail_codes = cfg['wait_fail_codes']
         env.payee_releases = cfg['payee_releases']
+        env.parts_can_fail = cfg['parts_can_fail']
         env._max_total = cfg['max_total_parts']
         env.write_fault_budget = cfg['write_faults']
         st.env = env
